@@ -32,6 +32,8 @@ ASSUMPTIONS = [
     'not any particular sequential behaviour (that is C01)',
     'the early-stopping boolean is masked; trial ids created during the run are compared up to a bijection',
     'an escaping bare KeyError is classed NOT_FOUND (it is the base class of the datastore NotFoundError)',
+    'the in-memory SQLite half of the matrix runs every handler with a stand-in ServicerContext (abort terminates the '
+    'handler, any other escaping exception is StatusCode.UNKNOWN), i.e. with the error classes a remote client sees',
 ]
 REQUIRED_COUNTERS = ['schedules_run', 'schedules_with_switch_inside_rmw', 'serial_orders_computed',
                      'combos_explored', 'stress_operations', 'stress_runs']
@@ -163,6 +165,12 @@ def final_state(sv, mon):
   return {'snap': snap, 'ops': sorted(ops, key=lambda o: o['name'])}
 
 
+def wire_mode(backend):
+  """The in-memory SQLite runs execute the handlers with gRPC-handler semantics
+  (status codes as a remote client sees them), the RAM runs in-process."""
+  return backend == 'sqlmem'
+
+
 def run_serial(backend, pname, names, order):
   from vv import service as S
   sv, ctl, mon = fresh(backend, pname)
@@ -170,7 +178,7 @@ def run_serial(backend, pname, names, order):
   outs = {}
   for i in order:
     call = MENU[names[i]]
-    ocls, oresp, _ = S.call_servicer(sv, call)
+    ocls, oresp, _ = S.call_servicer(sv, call, wire=wire_mode(backend))
     outs[i] = [ocls, oresp if ocls == 'OK' else None]
   return {'outs': [outs[i] for i in range(len(names))], 'final': final_state(sv, mon), 'before_ids': before_ids}
 
@@ -197,7 +205,7 @@ def run_controlled(backend, pname, names, prefix_choices, rng=None):
 
   def mk(i, call):
     def fn():
-      return S.call_servicer(sv, call)
+      return S.call_servicer(sv, call, wire=wire_mode(backend))
     return fn
   res, alive = sch.run([mk(i, c) for i, c in enumerate(calls)])
   sv.datastore._yield = None
